@@ -148,6 +148,90 @@ def round (ftm : List Int → Int) (f11fixed f12fixed : Bool) (cs : List Client)
       else RoundRes.ok (ftm (values sps succ))
     ⟨res, sps.map (·.map (·.1)), reset, probes⟩
 
+/-! ### The caller's path list in memory, and the Pather
+
+`MeasureClockOffsetSCION` consumes its `ps` argument IN PLACE: the sticky loop removes a path with
+`ps[j] = ps[len(ps)-1]; ps = ps[:len(ps)-1]` and `crypto.Sample`'s picks overwrite `ps[dst] = ps[src]`.
+The functions above take the list by value; the definitions below say what these writes leave in
+the caller's backing array, and model `scion.Pather.Paths` (net/scion/pather.go), which hands out
+a COPY of its table — so that the writes never reach the table. -/
+
+/-- `round` over paths that carry their own identity (position in some original table) instead
+    of the positions of a fingerprint list; `round … offered = roundP … (offeredPaths offered)`. -/
+def roundP (ftm : List Int → Int) (f11fixed f12fixed : Bool) (cs : List Client) (ps : List Path)
+    (cancelled : Bool) (s : Stream) (succ : List (Option Int)) : RoundOut :=
+  match assignFrom (stickyLoop f11fixed cs ps) cancelled s with
+  | (.errSample e, reset) => ⟨.errSample e, cs.map fun _ => none, reset, cs.map fun _ => 0⟩
+  | (.panic p, reset) => ⟨.panic p, cs.map fun _ => none, reset, cs.map fun _ => 0⟩
+  | (.errNoPath _, reset) => ⟨.errNoPath, cs.map fun _ => none, reset, cs.map fun _ => 0⟩
+  | (.ok sps _, reset) =>
+    let probes := (cs.zip sps).map fun (c, p) => if p.isSome then (if c.mode then 3 else 1) else 0
+    let res :=
+      if f12fixed && successes sps succ == 0 then RoundRes.errNoMeasurement
+      else RoundRes.ok (ftm (values sps succ))
+    ⟨res, sps.map (·.map (·.1)), reset, probes⟩
+
+/-- what the swap-removes of the first loop leave BEHIND the shrinking slice in its backing
+    array: each removal shortens the slice by one and the array keeps the old last element there
+    (`ps.drop r.2.length` is `[last]` after a removal, `[]` otherwise); most recent first. -/
+def stickyLoopTail (f11fixed : Bool) : List Client → List Path → List Path → List Path
+  | [], _, tail => tail
+  | c :: cs, ps, tail =>
+    let r := stickyStep f11fixed c ps
+    stickyLoopTail f11fixed cs r.2 (ps.drop r.2.length ++ tail)
+
+/-- contents of the caller's array (all slots of the slice that was passed in) when
+    MeasureClockOffsetSCION returns: the candidates as left by the sticky loop and overwritten by
+    Sample's picks (writes through a slice cannot go beyond its length), then the abandoned tail -/
+def arrayAfter (f11fixed : Bool) (cs : List Client) (ps : List Path) (cancelled : Bool) (s : Stream) :
+    List Path :=
+  let st := stickyLoop f11fixed cs ps
+  let tail := stickyLoopTail f11fixed cs ps []
+  match sample ((st.1.length : Int) - countSome st.1) st.2.length cancelled s with
+  | .ok (_, picks, _) => applyPicks st.2 picks ++ tail
+  | _ => st.2 ++ tail
+
+/-- memory: path arrays by address -/
+abbrev Mem := List (List Path)
+
+/-- `MeasureClockOffsetSCION(…, ps)` with `ps` = the array at address `a`: the result is a
+    function of the array's contents; the in-place writes land in that array and nowhere else. -/
+def roundAt (ftm : List Int → Int) (f11fixed f12fixed : Bool) (m : Mem) (a : Nat) (cs : List Client)
+    (cancelled : Bool) (s : Stream) (succ : List (Option Int)) : RoundOut × Mem :=
+  let ps := m.getD a []
+  (roundP ftm f11fixed f12fixed cs ps cancelled s succ, m.set a (arrayAfter f11fixed cs ps cancelled s))
+
+/-- `Pather.Paths` as in net/scion/pather.go: `append(make([]snet.Path, 0, len(paths)), paths...)`
+    — a new array with the table's contents -/
+def pathsCopy (m : Mem) (table : Nat) : Mem × Nat := (m ++ [m.getD table []], m.length)
+
+/-- the ALIASED variant (not the code): hand out the table's own array -/
+def pathsAlias (m : Mem) (table : Nat) : Mem × Nat := (m, table)
+
+/-- `ntpReferenceClockSCION.MeasureClockOffset` for a remote AS: ask the Pather, run the round -/
+def refclkRound (paths : Mem → Nat → Mem × Nat) (ftm : List Int → Int) (f11fixed f12fixed : Bool)
+    (m : Mem) (table : Nat) (cs : List Client) (cancelled : Bool) (s : Stream) (succ : List (Option Int)) :
+    RoundOut × Mem :=
+  let (m1, a) := paths m table
+  roundAt ftm f11fixed f12fixed m1 a cs cancelled s succ
+
+/-- one round's inputs: the clients' state when the round starts, the random stream, the
+    per-client outcome of the exchanges -/
+structure RoundIn where
+  cs : List Client
+  cancelled : Bool := false
+  s : Stream
+  succ : List (Option Int)
+
+/-- consecutive rounds on one Pather (between two refreshes of its table) -/
+def refclkHistory (paths : Mem → Nat → Mem × Nat) (ftm : List Int → Int) (f11fixed f12fixed : Bool) :
+    Mem → Nat → List RoundIn → List RoundOut × Mem
+  | m, _, [] => ([], m)
+  | m, table, r :: rs =>
+    let o := refclkRound paths ftm f11fixed f12fixed m table r.cs r.cancelled r.s r.succ
+    let rest := refclkHistory paths ftm f11fixed f12fixed o.2 table rs
+    (o.1 :: rest.1, rest.2)
+
 /-- tiny local copy of measurements.FaultTolerantMidpoint on offsets, for the driver only
     (no int64 wrap-around: the harness scripts offsets well inside ±2^62; the real function,
     including overflow, is C02's subject) -/
